@@ -35,6 +35,8 @@ def plans(rng, nchildren, model):
                     "pilot_replications": 1 if i % 3 == 1 else 0, "steps_first": 0,
                     "pauses": [rng.choice([1, 2, 3, 4, 6]) for _ in range(rng.choice([0, 1, 2, 4]))],
                     "bounds": [] if model["tc_listener"] else sorted([[rng.randrange(1, model["end_t"]), rng.random() < 0.5] for _ in range(rng.choice([0, 1, 2]))])})
+    if not model["tc_listener"] and len(out) > 2:
+        out[2]["bounds"] = [[max(1, model["end_t"] - 2), True]]      # at least one child pauses with an EXCLUSIVE bounded run before running to the end
     out[0].update(pilot_replications=0, steps_first=0, pauses=[], bounds=[], prior_events=0, prior_types=0, prior_strings=0, prior_draws=0)   # the plain reference run
     return out
 
